@@ -124,6 +124,43 @@ def cases(ctx):
                         thresh=rng.choice([1.0, 1.0, 0.5, 0.1]),
                         perturb=[rng.randint(1, 10 ** 6), rng.choice([0.1, 0.3, 0.7]), rng.choice([0, 30, 200])],
                         trace=5, dumplu=1, timeout=90, kind=kind))
+    # "comb" matrices: a spine with 2-3 hubs, each hub with 2-3 leaf twigs of 1-3 columns (natural order): many leaf supernodes that are
+    # NOT the last child of their parent, so the order in which the leaves are handed out and the busy snapshot of a pipelined
+    # parent interact
+    for k in range(24 if ctx.quick() else 240):
+        ent = {}; col = 0; hubs = []
+        nh = rng.randint(2, 3)
+        twigs_of = []
+        for h in range(nh):
+            tw = []
+            for _ in range(rng.randint(2, 3)):
+                L = rng.randint(1, 3); tw.append(list(range(col, col + L))); col += L
+            twigs_of.append(tw)
+        for h in range(nh):
+            hubs.append(col); col += 1
+        spine = list(range(col, col + rng.randint(1, 3))); col += len(spine)
+        n = col
+        def link(a, b):      # b is the parent of a (a < b): entries on both sides so that L and U are non-trivial
+            ent[(b, a)] = rng.uniform(0.2, 1.0) * rng.choice([1, -1]); ent[(a, b)] = rng.uniform(0.2, 1.0) * rng.choice([1, -1])
+        for h in range(nh):
+            for tw in twigs_of[h]:
+                for a, b in zip(tw, tw[1:]):
+                    link(a, b)
+                link(tw[-1], hubs[h])
+                if rng.random() < 0.5:
+                    link(tw[0], hubs[h])
+            link(hubs[h], spine[0])
+        for a, b in zip(spine, spine[1:]):
+            link(a, b)
+        for j in range(n):
+            ent[(j, j)] = 4.0 + rng.random()
+        A = gen.from_entries(n, ent, "comb")
+        cid += 1
+        out.append(dict(id=cid, driver="gstrf", m=n, n=n, colptr=A["colptr"], rowind=A["rowind"], vals=A["vals"],
+                        nrhs=1, rhs=[1.0] * n, nprocs=rng.choice([2, 3]), colperm=0,
+                        ienv=[rng.choice([1, 2, 3]), rng.choice([1, 2, 3]), 200, 200, 100, -50, -50, -30], thresh=1.0,
+                        perturb=[rng.randint(1, 10 ** 6), rng.choice([0.5, 0.8]), rng.choice([100, 300])],
+                        trace=5, dumplu=1, timeout=90, kind="comb"))
     # one worker stalls for about a second at its first pivot searches (a descheduled thread holding a busy panel): the worker that
     # took the parent panel in pipelined mode must wait for the flag however long it takes
     for k in range(4 if ctx.quick() else 16):
